@@ -74,7 +74,12 @@ type spec struct {
 	http     bool
 	noop     bool // http only, single backend: no-op encoding (body handed through, closed on cancellation)
 	backends [][]beh
-	group    string
+	// != 0: the pipeline is built by proxy.NewShadowFactory around the default factory and the
+	// endpoint has one more backend, a shadow one (it answers at once and is not observed: shadow
+	// traffic is C16's); > 0: its explicit shadow_timeout, -1: none configured (it defaults to the
+	// backend timeout)
+	shadow time.Duration
+	group  string
 	// how the case is run (not part of the input the model sees)
 	stress time.Duration // > 0: hammer one instance with this request for that long first (child process)
 	seqID  int           // > 0: step of an instance-reuse sequence (one instance, consecutive requests)
@@ -93,6 +98,9 @@ func (s spec) canon() string {
 		b.WriteByte('/')
 	}
 	// the same request after a different history / among concurrent ones is another test
+	if s.shadow != 0 {
+		fmt.Fprintf(&b, "|shadow%d", s.shadow)
+	}
 	if s.seqID > 0 {
 		fmt.Fprintf(&b, "|seq%d.%d", s.seqID, s.step)
 	}
@@ -118,8 +126,14 @@ func (s spec) coq() string {
 	if s.parent != 0 {
 		parent = emit.Some(emit.Z(int64(s.parent)))
 	}
-	return fmt.Sprintf("{| c_level := %s; c_seq := %s; c_T := %s; c_parent := %s; c_http := %s; c_backends := %s |}",
-		s.level, emit.Bool(s.seq), emit.Z(int64(s.T)), parent, emit.Bool(s.http), emit.List(bl))
+	shadow := "None"
+	if s.shadow > 0 {
+		shadow = emit.Some(emit.Z(int64(s.shadow)))
+	} else if s.shadow < 0 {
+		shadow = emit.Some(emit.Z(int64(s.T)))
+	}
+	return fmt.Sprintf("{| c_level := %s; c_seq := %s; c_T := %s; c_parent := %s; c_http := %s; c_backends := %s; c_shadow := %s |}",
+		s.level, emit.Bool(s.seq), emit.Z(int64(s.T)), parent, emit.Bool(s.http), emit.List(bl), shadow)
 }
 
 func (s spec) js() map[string]interface{} {
@@ -131,6 +145,9 @@ func (s spec) js() map[string]interface{} {
 	}
 	m := map[string]interface{}{"level": s.level, "sequential": s.seq, "timeout_ns": int64(s.T), "parent_deadline_ns": int64(s.parent),
 		"http_executor_stubs": s.http, "no_op": s.noop, "backends": bl, "group": s.group}
+	if s.shadow != 0 {
+		m["built_by_shadow_factory_with_shadow_timeout_ns"] = int64(s.shadow) // -1: not configured
+	}
 	if s.stress > 0 {
 		m["stressed_first_ms"] = int64(s.stress / time.Millisecond)
 	}
@@ -165,7 +182,7 @@ func (s spec) dangerous() bool {
 
 // what one pipeline instance is built from; steps of a reuse sequence must agree on it
 func (s spec) shapeKey() string {
-	k := fmt.Sprintf("%s|%v|%d|%v|%v", s.level, s.seq, s.T, s.http, s.noop)
+	k := fmt.Sprintf("%s|%v|%d|%v|%v|%d", s.level, s.seq, s.T, s.http, s.noop, s.shadow)
 	for _, a := range s.backends {
 		k += fmt.Sprintf("|%d", len(a))
 	}
@@ -371,6 +388,8 @@ func (r *recorder) play(ctx context.Context, be int, b beh) (int, error) {
 	return 2, errBackend
 }
 
+const shadowPattern = "/shadow"
+
 func beIndex(b *config.Backend) int {
 	i, err := strconv.Atoi(strings.TrimPrefix(b.URLPattern, "/b"))
 	if err != nil {
@@ -408,6 +427,12 @@ func (in *instance) lookup(ids []string) *recorder {
 
 func (in *instance) backendFactory(httpStubs bool) proxy.BackendFactory {
 	return func(b *config.Backend) proxy.Proxy {
+		if b.URLPattern == shadowPattern {
+			// the shadow backend: answers at once, is not observed
+			return func(context.Context, *proxy.Request) (*proxy.Response, error) {
+				return &proxy.Response{Data: map[string]interface{}{"shadow": true}, IsComplete: true}, nil
+			}
+		}
 		be := beIndex(b)
 		if httpStubs {
 			exec := func(ctx context.Context, hr *http.Request) (*http.Response, error) {
@@ -513,6 +538,13 @@ func newInstance(s spec) *instance {
 		}
 		ep.Backend = append(ep.Backend, b)
 	}
+	if s.shadow != 0 {
+		extra := map[string]interface{}{"shadow": true}
+		if s.shadow > 0 {
+			extra["shadow_timeout"] = s.shadow.String()
+		}
+		ep.Backend = append(ep.Backend, &config.Backend{URLPattern: shadowPattern, ExtraConfig: config.ExtraConfig{proxy.Namespace: extra}})
+	}
 	sc.Endpoints = []*config.EndpointConfig{ep}
 	if err := sc.Init(); err != nil {
 		panic(err)
@@ -522,7 +554,11 @@ func newInstance(s spec) *instance {
 	for i, a := range s.backends {
 		ep.Backend[i].ConcurrentCalls = len(a)
 	}
-	p, err := proxy.NewDefaultFactory(in.backendFactory(s.http), logging.NoOp).New(ep)
+	var factory proxy.Factory = proxy.NewDefaultFactory(in.backendFactory(s.http), logging.NoOp)
+	if s.shadow != 0 {
+		factory = proxy.NewShadowFactory(factory)
+	}
+	p, err := factory.New(ep)
 	if err != nil {
 		panic(err)
 	}
@@ -1388,6 +1424,9 @@ func emitCase(w *out.Writer, s spec, r obsData) {
 	if s.dangerous() {
 		w.Count("run-in-child-process")
 	}
+	if s.shadow != 0 {
+		w.Count("built-by-shadow-factory")
+	}
 	w.Add(term, js, "", s.canon(), nontrivial)
 }
 
@@ -1556,6 +1595,30 @@ func generate(cfg out.Config, r *rng.R) []spec {
 		}
 	}
 
+	// 1a'. endpoints built through proxy.NewShadowFactory: >= 2 regular backends and a shadow backend
+	// whose shadow_timeout is larger / smaller than the endpoint timeout or not configured; the
+	// regular calls must see the deadlines of the endpoint timeout, and a regular backend that
+	// answers at 80% of T must be delivered however short the shadow timeout is
+	for _, sh := range []time.Duration{3 * time.Second, 15 * time.Millisecond, -1} {
+		for _, lv := range levels {
+			for _, bs := range [][][]beh{
+				{{bAnswer}, {bHang}}, {{bHang}, {bHang}}, {{bAnswer, bHang}, {bHang}}, {{bAnswer}, {bHang}, {bFail}}, {{bLate}, {bAnswer, bAnswer}},
+			} {
+				cp := make([][]beh, len(bs))
+				for i := range bs {
+					cp[i] = append([]beh(nil), bs[i]...)
+				}
+				add(spec{level: lv, T: T1, shadow: sh, backends: cp, group: "shadow-factory"})
+			}
+			add(spec{level: lv, T: T1, seq: true, shadow: sh, backends: [][]beh{{bAnswer}, {bHang}}, group: "shadow-factory"})
+			add(spec{level: lv, T: T1, seq: true, shadow: sh, backends: [][]beh{{bAnswer, bAnswer}, {bFail}, {bAnswer}}, group: "shadow-factory"})
+		}
+	}
+	for _, sh := range []time.Duration{100 * time.Millisecond, 3 * time.Second} {
+		add(spec{level: "LProxy", T: TW, shadow: sh, backends: [][]beh{{M}, {bAnswer}}, group: "shadow-factory"})
+		add(spec{level: "LMux", T: TW, shadow: sh, backends: [][]beh{{bHang, bHang}, {M}}, group: "shadow-factory"})
+		add(spec{level: "LGin", T: TW, shadow: sh, backends: [][]beh{{M}, {bFail}, {bAnswer}}, group: "shadow-factory"})
+	}
 	// 1b. instance reuse, the telling orders: ONE pipeline / handler instance serves the requests
 	// of a sequence one after the other (a context, timer or cancel function created once per
 	// endpoint instead of once per request shows at the second request)
@@ -1587,6 +1650,10 @@ func generate(cfg out.Config, r *rng.R) []spec {
 		[][]beh{{A}, {A}}, [][]beh{{H}, {A}}, [][]beh{{A}, {A}}, [][]beh{{L}, {F}}, [][]beh{{A}, {A}})
 	addSeq("reuse-seq-corpus", spec{level: "LMux", T: T1, seq: true, parent: T1 / 2},
 		[][]beh{{A, H}, {A}}, [][]beh{{H, H}, {A}}, [][]beh{{A, A}, {A}}, [][]beh{{A, A}, {H}}, [][]beh{{A, A}, {A}})
+	addSeq("reuse-seq-corpus", spec{level: "LProxy", T: T1, shadow: 3 * time.Second},
+		[][]beh{{A}, {A}}, [][]beh{{A}, {H}}, [][]beh{{H}, {H}}, [][]beh{{A}, {A}})
+	addSeq("reuse-seq-corpus", spec{level: "LMux", T: T1, shadow: 15 * time.Millisecond},
+		[][]beh{{A}, {A}}, [][]beh{{A}, {H}}, [][]beh{{A}, {A}})
 	addSeq("reuse-seq-corpus", spec{level: "LGin", T: T1, http: true, noop: true},
 		[][]beh{{A}}, [][]beh{{A}}, [][]beh{{H}}, [][]beh{{A}})
 	addSeq("reuse-seq-corpus", spec{level: "LProxy", T: T1, http: true, parent: T1 / 2},
